@@ -898,8 +898,17 @@ pub fn lone_bit_cases(ctx: &mut Ctx, n: u32, es: u32, count: usize) -> (Vec<(u64
     let mut buckets: Vec<Vec<(u64, u64, u64)>> = vec![Vec::new(); nb];
     let mut tries = 0usize;
     let max_tries = count * 4000;
-    while tries < max_tries && (pairs.len() < count || buckets.iter().any(|b| b.len() < quota)) {
+    let mut last_hit = 0usize;
+    let mut filled = 0usize;
+    while tries < max_tries && tries - last_hit < 3_000_000 && (pairs.len() < count || buckets.iter().any(|b| b.len() < quota)) {
         tries += 1;
+        if tries % 1024 == 0 {
+            let now = pairs.len() + buckets.iter().map(|b| b.len()).sum::<usize>();
+            if now != filled {
+                filled = now;
+                last_hit = tries;
+            }
+        }
         let (u, v, w, _j) = gen::lone_bit_pair(f, &mut ctx.rng);
         let carry = (w >> f) as i32; // 1 + w/2^f >= 2 ?  (w < 2^(f+1))
         let wl = w & gen::mask(f);
